@@ -89,6 +89,12 @@ fn unquoted_words(v: &Value) -> Vec<String> {
                     out.push(p.to_string());
                 }
             }
+            // range bounds are bare words as well
+            if let (Some(t), Some(Value::String(val))) = (m.get("type").and_then(|t| t.as_str()), m.get("value")) {
+                if t == "inclusive" || t == "exclusive" {
+                    out.push(val.clone());
+                }
+            }
             for x in m.values() {
                 out.extend(unquoted_words(x));
             }
@@ -318,7 +324,7 @@ const EDGES: &[&str] = &[
     "[", "]", "{", "}", "[]", "{}", "[a", "[a TO", "[a TO ", "[a TO b", "[a TO b]", "{a TO b}", "[a TO b}", "{a TO b]", "[* TO *]", "{* TO *}", "[* TO b}", "{a TO *]", "a:[* TO *]",
     "[a TOb]", "[aTO b]", "[a  TO  b]", "[ a TO b ]", "[TO TO TO]", "[a TO]", "[ TO b]", "[a b]", "a:[1 TO 2", "a:[1 TO 2]]", "a:[[1 TO 2]", "[\"a\" TO \"b\"]",
     ">", "<", ">=", "<=", ">a", "<a", ">=a", "<=a", "> a", "a:>", "a:>=", "a:>1", "a:> 1", "a:>=1", "a:< -1", "a:<=-1.5", "a:>>1", "a:><1", "a:=1", ">)", "(>)", "(>a)",
-    "a\ntitle:b", "a\ttitle:b", "x title:a\nbody:b", "NOT\ta", "NOT\na b", "IN [ 'a']", "title: IN [ \"a\" b]", "IN [\u{85}", "a: IN [b\u{a0}c]", "IN [a\u{2028}", "js.a\0b:x", "js.\0:x", "title\0:x",
+    "(a NOT b)^2", "(a NOT b)", "(a a)^2", "a\ntitle:b", "a\ttitle:b", "x title:a\nbody:b", "NOT\ta", "NOT\na b", "IN [ 'a']", "title: IN [ \"a\" b]", "IN [\u{85}", "a: IN [b\u{a0}c]", "IN [a\u{2028}", "js.a\0b:x", "js.\0:x", "title\0:x",
     "IN", "IN ", "IN [", "IN []", "IN [a", "IN [a]", "IN [a b]", "IN [a b ]", "IN[a]", "a:IN [b]", "a: IN [b]", "a: IN [\"b c\" d]", "a: IN [b", "a: IN ]", "a: IN [[b]]", "a: IN [IN]", "IN [a] b", "IN (a)",
     "/", "//", "/a/", "/a", "a:/b/", "a:/b", "a:/b/c", "a:/b/ c", "a:/b/^2", "a:/\\//", "a:/[/", "cat:/a/b",
     ":", "::", "a:", ":a", "a::b", "a:b:c", "a :b", "a: b", "a : b", "a\\:b", "a\\ b:c", "-a:b", "!a:b", "a.b:c", "a.b.c.d:e",
@@ -688,7 +694,13 @@ fn check_sem_case(ctx: &mut Ctx, w: &World, g: &Gen, q: &Q, text: &str) {
                         ctx.report.violation("model", "C16:expected-error-accepted", format!("{} accepted although an error was expected", short(text)), case.clone());
                     } else if real_bits != exp_bits {
                         let safe = ctx.model.ask(&format!("C16 safe {mode} {qtok}"));
-                        let key = if safe == "0" && dups && real_bits == m_strict { KEY_UNWRAP } else { "C16:meaning-mismatch" };
+                        let key = if safe == "0" && dups && real_bits == m_strict {
+                            KEY_UNWRAP
+                        } else if real_bits == m_strict && neg_under_boost(q, false) {
+                            KEY_BOOST_SKIP
+                        } else {
+                            "C16:meaning-mismatch"
+                        };
                         ctx.report.violation("oracle", key, format!("{} (mode {mode}): parsed query matches {real_bits}, documented meaning {exp_bits}", short(text)), case.clone());
                     }
                     if real_bits != m_strict {
@@ -730,6 +742,17 @@ fn check_sem_case(ctx: &mut Ctx, w: &World, g: &Gen, q: &Q, text: &str) {
                 }
             },
         }
+    }
+}
+
+/// an unmarked `NOT x` clause of a marker list somewhere below a boost: `rewrite_ast` does not
+/// descend into `Boost`, so the clause is not normalised to `-x`
+fn neg_under_boost(q: &Q, boosted: bool) -> bool {
+    match q {
+        Q::Leaf(_) => false,
+        Q::Boost(i, _) => neg_under_boost(i, true),
+        Q::Neg(i) | Q::Scoped(_, i) => neg_under_boost(i, boosted),
+        Q::Seq(items) => items.iter().any(|(_, occ, s)| (boosted && occ.is_none() && matches!(s, Q::Neg(_)) && is_marks(items)) || neg_under_boost(s, boosted)),
     }
 }
 
